@@ -92,6 +92,19 @@ Definition str_leb (a b : ident) : bool := negb (str_ltb b a).
 Fixpoint infixb (m s : list N) : bool :=
   prefixb m s || match s with [] => false | _ :: r => infixb m r end.
 
+(* assistant.py assist: the branch selector of the package-listing shortcut
+     line.lstrip().startswith('from ') and ' import ' not in line
+   ([line] = text left of the cursor; lstrip/white space restricted to ASCII as in Text.is_space) *)
+Fixpoint lstrip (s : list N) : list N :=
+  match s with
+  | c :: r => if is_space c then lstrip r else s
+  | [] => []
+  end.
+Definition kw_from : list N := [102; 114; 111; 109; 32]%N.                    (* 'from ' *)
+Definition kw_import : list N := [32; 105; 109; 112; 111; 114; 116; 32]%N.      (* ' import ' *)
+Definition from_branch (line : list N) : bool :=
+  prefixb kw_from (lstrip line) && negb (infixb kw_import line).
+
 (* util.py:339-341 marked(name) *)
 Definition is_marked (n : ident) : bool := infixb source_mark n.
 
